@@ -351,24 +351,33 @@ theorem decodeRef_named (e : List (List Char × List Char)) (rv : List (Char × 
         · exact absurd h (by simp)
 
 /-- row of `xml.EntitiesMap`: one character, the character XML 1.0 predefines for that name, plain ASCII that
-needs no escaping, and not a key of `TextRevEntitiesMap` -/
+needs no escaping -/
 def entRowOk (p : List Char × List Char) : Bool :=
   match p.2 with
   | [c] => predefined p.1 == some c.toNat && decide (c.toNat < 128) && c != '&' && c != '<' && !isS c &&
-      decide (32 ≤ c.toNat) && (XmlTables.textRev.lookup c).isNone
+      decide (32 ≤ c.toNat)
   | _ => false
 
 theorem entities_sound : XmlTables.entities.all entRowOk = true := by decide
 
-/-- row of `xml.TextRevEntitiesMap`: the escape is a reference to the predefined entity for that byte -/
+/-- row of `xml.TextRevEntitiesMap` / `xml.AttrRevEntitiesMap`: the escape is a reference (to a predefined
+entity, or a decimal character reference) that stands for the byte -/
 def revRowOk (p : Char × List Char) : Bool :=
-  p.2.head? == some '&' && p.2.getLast? == some ';' && !((p.2.drop 1).dropLast).isEmpty &&
-    ((p.2.drop 1).dropLast).all isNameChar && predefined ((p.2.drop 1).dropLast) == some p.1.toNat
+  p.2.head? == some '&' && p.2.getLast? == some ';' &&
+    ((!((p.2.drop 1).dropLast).isEmpty && ((p.2.drop 1).dropLast).all isNameChar &&
+        predefined ((p.2.drop 1).dropLast) == some p.1.toNat) ||
+     (match (p.2.drop 1).dropLast with
+      | '#' :: ds => !ds.isEmpty && ds.all isDig && numVal 10 ds == p.1.toNat
+      | _ => false))
 
-theorem textRev_sound : XmlTables.textRev.all revRowOk = true := by decide
+/-- a reverse table all of whose rows are sound and which escapes `&` and `<` -/
+def RevOk (rv : List (Char × List Char)) : Prop :=
+  rv.all revRowOk = true ∧ (rv.lookup '&').isSome = true ∧ (rv.lookup '<').isSome = true
 
-theorem textRev_keys : (XmlTables.textRev.lookup '&').isSome = true ∧ (XmlTables.textRev.lookup '<').isSome = true := by
-  decide
+theorem textRev_sound : RevOk XmlTables.textRev := by unfold RevOk; decide
+theorem attrRev_sound : RevOk XmlTables.attrRev := by unfold RevOk; decide
+theorem attrRev_ws : (XmlTables.attrRev.lookup '\t').isSome = true ∧ (XmlTables.attrRev.lookup '\n').isSome = true ∧
+    (XmlTables.attrRev.lookup '\r').isSome = true := by decide
 
 theorem ofNat_toNat_small : ∀ v, v < 128 → (Char.ofNat v).toNat = v := by decide
 
@@ -419,7 +428,7 @@ def RefStep (ws : Bool) (rv : List (Char × List Char)) (u : XUnit) (X : List Ch
   scan ws XmlTables.entities rv 0 (u.chars ++ X) = u.chars ++ scan ws XmlTables.entities rv 0 X ∨
   (∃ (c : Char) (src rep : List Char), c.toNat < 128 ∧ u.val false = DCh.c c.toNat ∧
       ((∃ ds, u = .dec ds ∨ u = .hex ds) ∨
-        (c ≠ '&' ∧ c ≠ '<' ∧ isS c = false ∧ 32 ≤ c.toNat ∧ XmlTables.textRev.lookup c = none)) ∧
+        (c ≠ '&' ∧ c ≠ '<' ∧ isS c = false ∧ 32 ≤ c.toNat)) ∧
       finishRef rv src [c] X = some rep ∧
       scan ws XmlTables.entities rv 0 (u.chars ++ X) = rep ++ scan ws XmlTables.entities rv 0 X) ∨
   (∃ ds, u = .hex ds ∧ 128 ≤ numVal 16 ds ∧ numVal 16 ds < 10000 ∧
@@ -572,10 +581,10 @@ theorem refStep_named (ws : Bool) (rv : List (Char × List Char)) (nm X : List C
       rcases rep0 with _ | ⟨c, _ | ⟨d, t⟩⟩
       · simp [entRowOk] at hok
       · simp only [entRowOk, Bool.and_eq_true, beq_iff_eq, decide_eq_true_eq, bne_iff_ne, ne_eq,
-          Bool.not_eq_true', Option.isNone_iff_eq_none] at hok
-        obtain ⟨⟨⟨⟨⟨⟨p1, p2⟩, p3⟩, p4⟩, p5⟩, p6⟩, p7⟩ := hok
+          Bool.not_eq_true'] at hok
+        obtain ⟨⟨⟨⟨⟨p1, p2⟩, p3⟩, p4⟩, p5⟩, p6⟩ := hok
         right; left
-        refine ⟨c, _, rep, p2, ?_, Or.inr ⟨p3, p4, p5, p6, p7⟩, hf, ?_⟩
+        refine ⟨c, _, rep, p2, ?_, Or.inr ⟨p3, p4, p5, p6⟩, hf, ?_⟩
         · simp [XUnit.val, p1]
         · simp only [hn]
           rw [scan_skip, hdrop]
@@ -664,65 +673,105 @@ theorem val_numOf (u : XUnit) (v : Nat) (h : numOf u = some v) (a : Bool) : u.va
 theorem ok_legal_numOf (u : XUnit) (v : Nat) (h : numOf u = some v) (hu : u.ok = true) : legalChar v = true := by
   cases u <;> simp_all [numOf, XUnit.ok]
 
-/-- text mode (`TextRevEntitiesMap`): a reference unit is rewritten to a well-formed unit with the same value -/
-theorem step_text (ws : Bool) (u : XUnit) (X : List Char) (hu : u.ok = true) (hr : ∀ c, u ≠ .lit c) :
-    ∃ u' : XUnit, scan ws XmlTables.entities XmlTables.textRev 0 (u.chars ++ X) =
-        u'.chars ++ scan ws XmlTables.entities XmlTables.textRev 0 X ∧ u'.ok = true ∧
-        u'.val false = u.val false ∧ (∀ c, u' = .lit c → c.toNat < 128) := by
-  rcases refStep ws XmlTables.textRev u X hu hr with h | ⟨c, src, rep, hc, hval, hkind, hf, hs⟩ | ⟨ds, hds, h1, h2, hs⟩
+/-- a reference unit is rewritten to a well-formed unit with the same value (any sound reverse table) -/
+theorem step_rev (ws : Bool) (rv : List (Char × List Char)) (hrv : RevOk rv) (u : XUnit) (X : List Char)
+    (hu : u.ok = true) (hr : ∀ c, u ≠ .lit c) :
+    ∃ u' : XUnit, scan ws XmlTables.entities rv 0 (u.chars ++ X) =
+        u'.chars ++ scan ws XmlTables.entities rv 0 X ∧ u'.ok = true ∧
+        u'.val false = u.val false ∧ (∀ c, u' = .lit c → c.toNat < 128 ∧ rv.lookup c = none) := by
+  obtain ⟨hrows, hkamp, hklt⟩ := hrv
+  rcases refStep ws rv u X hu hr with h | ⟨c, src, rep, hc, hval, hkind, hf, hs⟩ | ⟨ds, hds, h1, h2, hs⟩
   · exact ⟨u, h, hu, rfl, fun c hc => absurd hc (hr c)⟩
-  · -- finishRef with the text table
-    have hleg : c = '\t' ∨ c = '\n' ∨ c = '\r' ∨ 32 ≤ c.toNat := by
-      rcases hkind with ⟨ds, hd | hd⟩ | hrow
+  · have hlegal : (∃ ds, u = .dec ds ∨ u = .hex ds) → legalChar c.toNat = true := by
+      rintro ⟨ds, hd | hd⟩
       · have := ok_legal_numOf u (numVal 10 ds) (by simp [hd, numOf]) hu
         have hv : u.val false = DCh.c (numVal 10 ds) := by simp [hd, XUnit.val]
         rw [hval] at hv; simp only [DCh.c.injEq] at hv
-        rw [← hv] at this; exact legal_small c hc this
+        rw [← hv] at this; exact this
       · have := ok_legal_numOf u (numVal 16 ds) (by simp [hd, numOf]) hu
         have hv : u.val false = DCh.c (numVal 16 ds) := by simp [hd, XUnit.val]
         rw [hval] at hv; simp only [DCh.c.injEq] at hv
-        rw [← hv] at this; exact legal_small c hc this
-      · exact Or.inr (Or.inr (Or.inr hrow.2.2.2.1))
+        rw [← hv] at this; exact this
+    have hleg : c = '\t' ∨ c = '\n' ∨ c = '\r' ∨ 32 ≤ c.toNat := by
+      rcases hkind with hnum | hrow
+      · exact legal_small c hc (hlegal hnum)
+      · exact Or.inr (Or.inr (Or.inr hrow.2.2.2))
+    have hlegal' : legalChar c.toNat = true := by
+      rcases hkind with hnum | hrow
+      · exact hlegal hnum
+      · simp only [legalChar, Bool.or_eq_true, beq_iff_eq, Bool.and_eq_true, decide_eq_true_eq]
+        have := hrow.2.2.2
+        left; left; right; omega
     unfold finishRef at hf
     simp only at hf
-    cases hl : List.lookup c XmlTables.textRev with
+    cases hl : List.lookup c rv with
     | some q =>
       rw [hl] at hf
       simp only at hf
       split at hf
       · exact absurd hf (by simp)
       · simp only [Option.some.injEq] at hf
-        have hrow := List.all_eq_true.mp textRev_sound _ (lookup_mem _ _ _ hl)
+        have hrow := List.all_eq_true.mp hrows _ (lookup_mem _ _ _ hl)
         rcases q with _ | ⟨q0, rest⟩
         · simp [revRowOk] at hrow
         · simp only [revRowOk, List.head?_cons, Bool.and_eq_true, beq_iff_eq, Option.some.injEq,
-            Bool.not_eq_true', List.isEmpty_eq_false_iff, List.all_eq_true, List.drop_succ_cons,
-            List.drop_zero] at hrow
-          obtain ⟨⟨⟨⟨r0, r1⟩, r2⟩, r3⟩, r4⟩ := hrow
+            List.drop_succ_cons, List.drop_zero, Bool.or_eq_true] at hrow
+          obtain ⟨⟨r0, r1⟩, hbody⟩ := hrow
           subst r0
+          have hrne : rest ≠ [] := by
+            intro h; subst h
+            rcases hbody with h | h
+            · simp at h
+            · simp at h
           have hrest : rest = rest.dropLast ++ [';'] := by
             apply eq_dropLast_append
             cases rest with
-            | nil => simp at r2
+            | nil => exact absurd rfl hrne
             | cons a b => simpa [List.getLast?_cons_cons] using r1
-          refine ⟨.named rest.dropLast, ?_, ?_, ?_, fun c h => by cases h⟩
-          · rw [hs, ← hf]
-            simp only [XUnit.chars, List.cons_append, List.cons.injEq, true_and]
-            rw [← hrest]
-          · simp only [XUnit.ok, Bool.and_eq_true, Bool.not_eq_true', List.isEmpty_eq_false_iff, List.all_eq_true]
-            exact ⟨r2, r3⟩
-          · rw [hval]; simp [XUnit.val, r4]
+          rcases hbody with hb | hb
+          · simp only [Bool.and_eq_true, Bool.not_eq_true', List.isEmpty_eq_false_iff, List.all_eq_true,
+              beq_iff_eq] at hb
+            obtain ⟨⟨r2, r3⟩, r4⟩ := hb
+            refine ⟨.named rest.dropLast, ?_, ?_, ?_, fun c h => by cases h⟩
+            · rw [hs, ← hf]
+              simp only [XUnit.chars, List.cons_append, List.cons.injEq, true_and]
+              rw [← hrest]
+            · simp only [XUnit.ok, Bool.and_eq_true, Bool.not_eq_true', List.isEmpty_eq_false_iff, List.all_eq_true]
+              exact ⟨r2, r3⟩
+            · rw [hval]; simp [XUnit.val, r4]
+          · cases hdl : rest.dropLast with
+            | nil => rw [hdl] at hb; simp at hb
+            | cons b0 ds' =>
+              rw [hdl] at hb
+              by_cases hb0 : b0 = '#'
+              · subst hb0
+                simp only [Bool.and_eq_true, Bool.not_eq_true', List.isEmpty_eq_false_iff, List.all_eq_true,
+                  beq_iff_eq] at hb
+                obtain ⟨⟨r2, r3⟩, r4⟩ := hb
+                refine ⟨.dec ds', ?_, ?_, ?_, fun c h => by cases h⟩
+                · rw [hs, ← hf]
+                  simp only [XUnit.chars, List.cons_append, List.cons.injEq, true_and]
+                  rw [hrest, hdl]; simp
+                · simp only [XUnit.ok, Bool.and_eq_true, Bool.not_eq_true', List.isEmpty_eq_false_iff,
+                    List.all_eq_true]
+                  exact ⟨⟨r2, r3⟩, by rw [r4]; exact hlegal'⟩
+                · rw [hval]; simp [XUnit.val, r4]
+              · exfalso
+                revert hb
+                split
+                · next ds hh => simp only [List.cons.injEq] at hh; exact absurd hh.1 hb0
+                · simp
     | none =>
       rw [hl] at hf
       simp only at hf
       have hamp : c ≠ '&' := by
-        intro h; subst h; have := textRev_keys.1; rw [hl] at this; exact absurd this (by simp)
+        intro h; subst h; rw [hl] at hkamp; exact absurd hkamp (by simp)
       have hlt : c ≠ '<' := by
-        intro h; subst h; have := textRev_keys.2; rw [hl] at this; exact absurd this (by simp)
+        intro h; subst h; rw [hl] at hklt; exact absurd hklt (by simp)
       have hb : (c == '&') = false := by simpa using hamp
       rw [hb] at hf
       simp only [Bool.false_eq_true, if_false, Option.some.injEq] at hf
-      refine ⟨.lit c, by rw [hs, ← hf]; rfl, ?_, ?_, fun c' h => by cases h; exact hc⟩
+      refine ⟨.lit c, by rw [hs, ← hf]; rfl, ?_, ?_, fun c' h => by cases h; exact ⟨hc, hl⟩⟩
       · simp only [XUnit.ok, litOk, Bool.and_eq_true, bne_iff_ne, ne_eq, Bool.or_eq_true, decide_eq_true_eq]
         refine ⟨⟨hlt, hamp⟩, ?_⟩
         rcases hleg with r | r | r | r
@@ -854,7 +903,7 @@ theorem scan_text_aux (n : Nat) : ∀ us : List XUnit, us.length ≤ n → us.al
           refine ⟨.lit c :: us2, ?_, by simp [hok.1, e2], Sim.unit _ _ _ _ rfl e3, by simp⟩
           simp [flat_cons, XUnit.chars, scan, hw, hamp, e1]
       · have hr : ∀ c, u ≠ .lit c := fun c h => hlit ⟨c, h⟩
-        obtain ⟨u', s1, s2, s3, _⟩ := step_text true u (flat r) hok.1 hr
+        obtain ⟨u', s1, s2, s3, _⟩ := step_rev true XmlTables.textRev textRev_sound u (flat r) hok.1 hr
         obtain ⟨us2, e1, e2, e3, _⟩ := ih r (by omega) hok.2
         refine ⟨u' :: us2, ?_, by simp [s2, e2], Sim.unit _ _ _ _ s3 e3, by simp⟩
         rw [flat_cons, s1, e1, flat_cons]
@@ -1026,6 +1075,166 @@ theorem sim_head (us us' : List XUnit) (h : Sim us us') :
     | cons x t =>
       have := isWsLit_val x (hall x (by simp))
       simp [headIsWsD, hwd, this]
+
+
+/-! ## E. per-token lemmas -/
+
+theorem chars_ne_nil (u : XUnit) : u.chars ≠ [] := by cases u <;> simp [XUnit.chars]
+
+theorem flat_eq_nil (us : List XUnit) : flat us = [] ↔ us = [] := by
+  cases us with
+  | nil => simp [flat]
+  | cons u r => simp [flat_cons, chars_ne_nil]
+
+/-- last byte of a unit: the literal byte, or `;` -/
+theorem chars_last (u : XUnit) : ∃ pre, u.chars = pre ++ [match u with | .lit c => c | _ => ';'] := by
+  cases u with
+  | lit c => exact ⟨[], rfl⟩
+  | named nm => exact ⟨'&' :: nm, by simp [XUnit.chars]⟩
+  | dec ds => exact ⟨'&' :: '#' :: ds, by simp [XUnit.chars]⟩
+  | hex ds => exact ⟨'&' :: '#' :: 'x' :: ds, by simp [XUnit.chars]⟩
+
+theorem endsWs_append_singleton (l : List Char) (c : Char) : endsWs (l ++ [c]) = isWs c := by
+  simp [endsWs]
+
+theorem startsWs_flat_cons (u : XUnit) (r : List XUnit) :
+    startsWs (flat (u :: r)) = (match u with | .lit c => isWs c | _ => false) := by
+  cases u <;> simp [flat_cons, XUnit.chars, startsWs] <;> decide
+
+theorem exists_concat {α} (l : List α) (h : l ≠ []) : ∃ a x, l = a ++ [x] := by
+  induction l with
+  | nil => exact absurd rfl h
+  | cons y t ih =>
+    cases t with
+    | nil => exact ⟨[], y, rfl⟩
+    | cons z t' =>
+      obtain ⟨a, x, hx⟩ := ih (by simp)
+      exact ⟨y :: a, x, by rw [hx]; rfl⟩
+
+def lastWs (V : List DCh) : Prop := ∃ V3 w, V = V3 ++ [w] ∧ isWsD w = true
+
+/-- What the text branch of `xml.go` does to a text token `d`, at the level of decoded characters:
+`V1` = characters after `ReplaceMultipleWhitespaceAndEntities`, `V2` = after the optional left trim. -/
+theorem text_token (o : XmlOpts) (om : Bool) (d : List Char) (rest : List XTok) (hd : WfText d) :
+    ∃ V1 : List DCh,
+      (∀ K p ps E, canonGo K p ps (V1.map .ch ++ E) = canonGo K p ps ((decodeText d).map .ch ++ E)) ∧
+      headIsWsD V1 = headIsWsD (decodeText d) ∧
+      ∃ V2, (V2 = V1 ∨ (om = true ∧ ∃ w, isWsD w = true ∧ V1 = w :: V2)) ∧
+        ((V2 = [] ∧ textStep o om d rest = ([], true)) ∨
+         (decodeText (textStep o om d rest).1 = V2 ∧ V2 ≠ [] ∧
+            (((textStep o om d rest).2 = true ∧ lastWs V2) ∨ (textStep o om d rest).2 = false)) ∨
+         (∃ V3 w, V2 = V3 ++ [w] ∧ isWsD w = true ∧ decodeText (textStep o om d rest).1 = V3 ∧
+            (textStep o om d rest).2 = false ∧ peekTrim o rest = true)) := by
+  obtain ⟨us, hok, rfl, hne⟩ := hd
+  obtain ⟨us', e1, e2, e3, e4⟩ := scan_text us hok
+  have hne' := e4 hne
+  refine ⟨us'.map (XUnit.val false), ?_, ?_, ?_⟩
+  · intro K p ps E
+    rw [decodeText_flat us hok]
+    exact canon_sim K e3 E p ps
+  · rw [decodeText_flat us hok]; exact sim_head us us' e3
+  · -- left trim: the result is again a unit sequence `u2`
+    have hleft : ∃ u2 : List XUnit, u2.all XUnit.ok = true ∧
+        (if om && startsWs (flat us') then (flat us').drop 1 else flat us') = flat u2 ∧
+        (u2.map (XUnit.val false) = us'.map (XUnit.val false) ∨
+          (om = true ∧ ∃ w, isWsD w = true ∧ us'.map (XUnit.val false) = w :: u2.map (XUnit.val false))) := by
+      cases hus : us' with
+      | nil => exact absurd hus hne'
+      | cons h t =>
+        rw [hus] at e2
+        simp only [List.all_cons, Bool.and_eq_true] at e2
+        by_cases hc : (om && startsWs (flat (h :: t))) = true
+        · rw [if_pos hc]
+          simp only [Bool.and_eq_true] at hc
+          rw [startsWs_flat_cons] at hc
+          cases h with
+          | lit c =>
+            simp only at hc
+            have hs : isS c = true := by rw [← isWs_eq_isS_ok c e2.1]; exact hc.2
+            refine ⟨t, e2.2, by simp [flat_cons, XUnit.chars], Or.inr ⟨hc.1, _, ?_, rfl⟩⟩
+            simpa [XUnit.val] using isWsD_lit_of_isS c hs
+          | named _ => simp at hc
+          | dec _ => simp at hc
+          | hex _ => simp at hc
+        · rw [if_neg hc]
+          exact ⟨h :: t, by simp [e2.1, e2.2], rfl, Or.inl rfl⟩
+    obtain ⟨u2, k1, k2, k3⟩ := hleft
+    refine ⟨u2.map (XUnit.val false), k3, ?_⟩
+    have hstep : textStep o om (flat us) rest =
+        (if (flat u2).isEmpty then ([], true)
+         else if endsWs (flat u2) then (if peekTrim o rest then ((flat u2).dropLast, false) else (flat u2, true))
+         else (flat u2, false)) := by
+      simp only [textStep, e1, k2]
+    rw [hstep]
+    by_cases hemp : u2 = []
+    · left; subst hemp; simp [flat]
+    · have hfe : (flat u2).isEmpty = false := by
+        simp only [List.isEmpty_eq_false_iff, ne_eq, flat_eq_nil]; exact hemp
+      rw [hfe]
+      simp only [Bool.false_eq_true, if_false]
+      -- last unit
+      obtain ⟨u3, l, rfl⟩ := exists_concat u2 hemp
+      have k1' : u3.all XUnit.ok = true ∧ l.ok = true := by
+        simpa [List.all_append] using k1
+      obtain ⟨pre, hpre⟩ := chars_last l
+      have hflat : flat (u3 ++ [l]) = (flat u3 ++ pre) ++ [match l with | .lit c => c | _ => ';'] := by
+        rw [flat_append]; simp [flat, hpre]
+      cases l with
+      | lit c =>
+        simp only at hflat
+        have hpre0 : pre = [] := by
+          simp only [XUnit.chars] at hpre
+          cases pre with
+          | nil => rfl
+          | cons a b => simp at hpre
+        subst hpre0
+        simp only [List.append_nil] at hflat
+        rw [hflat, endsWs_append_singleton]
+        by_cases hw : isWs c = true
+        · have hs : isS c = true := by rw [← isWs_eq_isS_ok c k1'.2]; exact hw
+          have hwd : isWsD ((XUnit.lit c).val false) = true := by
+            simpa [XUnit.val] using isWsD_lit_of_isS c hs
+          rw [if_pos hw]
+          by_cases hp : peekTrim o rest = true
+          · right; right
+            rw [if_pos hp]
+            refine ⟨u3.map (XUnit.val false), (XUnit.lit c).val false, by simp, hwd, ?_, rfl, hp⟩
+            simp only [List.dropLast_concat]
+            exact decodeText_flat u3 k1'.1
+          · right; left
+            rw [if_neg hp]
+            refine ⟨?_, by simp, Or.inl ⟨rfl, u3.map (XUnit.val false), (XUnit.lit c).val false, by simp, hwd⟩⟩
+            simp only
+            rw [← hflat]; exact decodeText_flat _ k1
+        · right; left
+          rw [if_neg hw]
+          refine ⟨?_, by simp, Or.inr rfl⟩
+          simp only
+          rw [← hflat]; exact decodeText_flat _ k1
+      | named nm =>
+        simp only at hflat
+        right; left
+        have : endsWs (flat (u3 ++ [XUnit.named nm])) = false := by
+          rw [hflat, endsWs_append_singleton]; decide
+        rw [this]
+        simp only [Bool.false_eq_true, if_false]
+        exact ⟨decodeText_flat _ k1, by simp, Or.inr trivial⟩
+      | dec ds =>
+        simp only at hflat
+        right; left
+        have : endsWs (flat (u3 ++ [XUnit.dec ds])) = false := by
+          rw [hflat, endsWs_append_singleton]; decide
+        rw [this]
+        simp only [Bool.false_eq_true, if_false]
+        exact ⟨decodeText_flat _ k1, by simp, Or.inr trivial⟩
+      | hex ds =>
+        simp only at hflat
+        right; left
+        have : endsWs (flat (u3 ++ [XUnit.hex ds])) = false := by
+          rw [hflat, endsWs_append_singleton]; decide
+        rw [this]
+        simp only [Bool.false_eq_true, if_false]
+        exact ⟨decodeText_flat _ k1, by simp, Or.inr trivial⟩
 
 
 end Verif.Proofs.Xml
